@@ -1,12 +1,25 @@
 #!/bin/bash
-# usage: tools/try_seed.sh <patch file> <Cxx> [<Cyy> ...]   — applies a seeded change to /repo, runs the checks, reverts.
+# usage: tools/try_seed.sh <patch file> <Cxx> [<Cyy> ...]
+# Applies a seeded change to a scratch worktree of /repo's HEAD (so that /repo itself, which other processes read, is never
+# touched), runs the named checks against it (VERIF_REPO), and removes the worktree.  Equivalent to
+# `git -C /repo apply <patch>; ./check ...; git -C /repo checkout -- .` (pass --in-repo to do exactly that instead).
 set -u
+INREPO=0; [ "$1" = "--in-repo" ] && { INREPO=1; shift; }
 PATCH=$1; shift
-git -C /repo status --short | grep -q . && { echo "/repo not clean"; exit 2; }
-git -C /repo apply "$PATCH" || { echo "patch does not apply"; exit 2; }
+if [ $INREPO = 1 ]; then
+  git -C /repo status --short | grep -q . && { echo "/repo not clean"; exit 2; }
+  git -C /repo apply "$PATCH" || { echo "patch does not apply"; exit 2; }
+  R=/repo
+else
+  R=/tmp/seedrepo_$$
+  git -C /repo worktree add --detach "$R" HEAD >/dev/null 2>&1 || { echo "cannot create worktree"; exit 2; }
+  git -C "$R" apply "$PATCH" || { echo "patch does not apply"; git -C /repo worktree remove --force "$R"; exit 2; }
+fi
 for P in "$@"; do
   echo "=== $P (tier ${VERIF_TIER:-quick})"
-  timeout 3000 ./check "$P" --tier "${VERIF_TIER:-quick}" 2>&1 | grep -a "VIOLATION\|KNOWN-FINDING\|obligations=" | cut -c1-300
+  VERIF_REPO=$R timeout 3000 /verif/check "$P" --tier "${VERIF_TIER:-quick}" 2>&1 | grep -a "VIOLATION\|KNOWN-FINDING\|obligations=" | cut -c1-300 | awk '/^VIOLATION/ {n++; if (n>3) next} {print}'
 done
-git -C /repo checkout -- .
-git -C /repo status --short | head -3
+if [ $INREPO = 1 ]; then git -C /repo checkout -- .; git -C /repo status --short | head -3
+else git -C /repo worktree remove --force "$R"; fi
+# leave Extracted.v describing the unchanged tree again
+/venv/bin/python /verif/tools/extract_facts.py /repo /verif/coq/theories/Extracted.v
